@@ -361,4 +361,222 @@ theorem refVoi_lut_int (vfirst : Int) (a : Nat) (t : List Nat) (mn mx : Nat) (lo
   simp only [refVoi, hmn, hmx, hne, ↓reduceIte, Rat.den_intCast, ne_eq, not_true_eq_false, Rat.num_intCast]
   cases h : refLookup (a :: t) vfirst (v : Int) <;> simp [scaledEntry]
 
+/-! ### LUT descriptor / data encoding -/
+
+theorem encode8_eq (data : List Nat) (h : ∀ v ∈ data, v < 256) : encodeEntries 8 data = data := by
+  induction data with
+  | nil => rfl
+  | cons a t ih =>
+    have ha : a % 256 = a := Nat.mod_eq_of_lt (h a (by simp))
+    have := ih (fun v hv => h v (by simp [hv]))
+    simp only [encodeEntries, entryBytes, List.flatMap_cons, ↓reduceIte, ha] at this ⊢
+    simp [this]
+
+theorem decode16_encode16 (data : List Nat) (h : ∀ v ∈ data, v < 65536) :
+    decode16 (encodeEntries 16 data) = .ok data := by
+  induction data with
+  | nil => rfl
+  | cons a t ih =>
+    have ha : a < 65536 := h a (by simp)
+    have := ih (fun v hv => h v (by simp [hv]))
+    have e : a % 256 + 256 * (a / 256 % 256) = a := by omega
+    simp only [encodeEntries, entryBytes, List.flatMap_cons] at this ⊢
+    simp [decode16, this, e]
+
+theorem encode16_length (data : List Nat) : (encodeEntries 16 data).length = 2 * data.length := by
+  induction data with
+  | nil => rfl
+  | cons a t ih =>
+    simp only [encodeEntries, entryBytes, List.flatMap_cons] at ih ⊢
+    simp [ih]; omega
+
+/-- the accessors on any item whose descriptor and data follow PS3.3 C.11.1.1: `d0` entries (0 = 65536) of
+`bits` bits, packed little endian, 8-bit tables optionally padded to an even number of bytes -/
+theorem lut_access (d0 first : Int) (bits : Nat) (data : List Nat) (pad : Bool)
+    (hb : bits = 8 ∨ bits = 16) (hv : ∀ v ∈ data, v < 2 ^ bits)
+    (hlen : 1 ≤ data.length ∧ data.length ≤ 65536)
+    (hd0 : d0 = if data.length = 65536 then 0 else (data.length : Int))
+    (hpad : pad = true → bits = 8 ∧ data.length % 2 = 1) :
+    let ds : LutDs := ⟨[d0, first, (bits : Int)], encodeEntries bits data ++ (if pad then [0] else [])⟩
+    lutData ds = .ok data ∧ firstMapped ds = .ok first ∧ numberOfEntries ds = .ok (data.length : Int) := by
+  intro ds
+  have hn : numberOfEntries ds = .ok (data.length : Int) := by
+    simp only [numberOfEntries, descr, ds, List.getElem?_cons_zero, hd0]
+    split_ifs with h1 h2 h2
+    · simp [h1]
+    · simp at h2
+    · omega
+    · rfl
+  refine ⟨?_, by simp [firstMapped, descr, ds], hn⟩
+  unfold lutData
+  rw [hn]
+  have hdes : descr ds 2 = .ok (bits : Int) := by simp [descr, ds]
+  rw [hdes]
+  rcases hb with rfl | rfl
+  · have he := encode8_eq data (by simpa using hv)
+    simp only [ds, he]
+    cases pad with
+    | true =>
+      have hodd := (hpad rfl).2
+      have h1 : ((data.length : Int) % 2 = 1) := by omega
+      simp [decodeEntries, h1]
+    | false =>
+      simp [decodeEntries]
+  · have hdec := decode16_encode16 data (by simpa using hv)
+    have hp : pad = false := by
+      cases pad with
+      | true => exact absurd (hpad rfl).1 (by decide)
+      | false => rfl
+    subst hp
+    simp [ds, decodeEntries, hdec]
+
+/-! ### selectors -/
+
+/-- Python list indexing: positions 0..n-1 from the front, -1..-n from the back, anything else refused -/
+theorem pyGet_spec {α} (l : List α) (k : Int) :
+    pyGet l k = if 0 ≤ k ∧ k < l.length then l[k.toNat]?
+      else if -(l.length : Int) ≤ k ∧ k < 0 then l[(l.length + k).toNat]? else none := by
+  unfold pyGet
+  by_cases h0 : k < 0
+  · have h1 : ¬ (0 ≤ k ∧ k < l.length) := by omega
+    simp only [h0, ↓reduceIte, h1]
+    by_cases h2 : -k ≤ (l.length : Int)
+    · have h3 : -(l.length : Int) ≤ k ∧ True := ⟨by omega, trivial⟩
+      simp only [h2, ↓reduceIte, h3.1, and_self]
+      congr 1; omega
+    · have h3 : ¬ (-(l.length : Int) ≤ k) := by omega
+      simp [h2, h3]
+  · simp only [h0, ↓reduceIte]
+    by_cases h1 : k < l.length
+    · have : 0 ≤ k ∧ k < l.length := ⟨by omega, h1⟩
+      simp [this]
+    · have h2 : ¬ (0 ≤ k ∧ k < l.length) := by omega
+      have h3 : ¬ (-(l.length : Int) ≤ k ∧ k < 0) := by omega
+      have : l.length ≤ k.toNat := by omega
+      simp [List.getElem?_eq_none this]
+
+/-- Python `list.index`: the first position holding the value -/
+theorem pyIndex_spec {α} [DecidableEq α] (l : List α) (x : α) (j : Nat) :
+    pyIndex l x = some j ↔ (l[j]? = some x ∧ ∀ i, i < j → l[i]? ≠ some x) := by
+  induction l generalizing j with
+  | nil => simp [pyIndex]
+  | cons a t ih =>
+    unfold pyIndex
+    by_cases h : a = x
+    · subst h
+      simp only [↓reduceIte, Option.some.injEq]
+      constructor
+      · intro hj; subst hj; simp
+      · intro ⟨_, h2⟩
+        cases j with
+        | zero => rfl
+        | succ j => exact absurd (by simp) (h2 0 (by omega))
+    · simp only [h, ↓reduceIte, Option.map_eq_some_iff]
+      constructor
+      · intro ⟨i, hi, hij⟩
+        subst hij
+        obtain ⟨h1, h2⟩ := (ih i).mp hi
+        refine ⟨by simpa using h1, ?_⟩
+        intro m hm
+        cases m with
+        | zero => simpa using h
+        | succ m => simpa using h2 m (by omega)
+      · intro ⟨h1, h2⟩
+        cases j with
+        | zero => simp at h1; exact absurd h1 h
+        | succ j =>
+          refine ⟨j, (ih j).mpr ⟨by simpa using h1, ?_⟩, rfl⟩
+          intro i hi
+          simpa using h2 (i + 1) (by omega)
+
+theorem pyIndex_none {α} [DecidableEq α] (l : List α) (x : α) : pyIndex l x = none ↔ x ∉ l := by
+  induction l with
+  | nil => simp [pyIndex]
+  | cons a t ih =>
+    unfold pyIndex
+    by_cases h : a = x
+    · subst h; simp
+    · simp only [h, ↓reduceIte, Option.map_eq_none_iff, ih, List.mem_cons, not_or]
+      constructor
+      · intro h2; exact ⟨fun e => h e.symm, h2⟩
+      · intro h2; exact h2.2
+
+theorem pickValue_eq_pyGet {α} (vals : List α) (k : Int) (h : vals ≠ []) : pickValue vals k = pyGet vals k := by
+  cases vals with
+  | nil => exact absurd rfl h
+  | cons a t =>
+    cases t with
+    | nil =>
+      rw [pyGet_spec]
+      simp only [pickValue, List.length_singleton]
+      by_cases h0 : k = 0
+      · subst h0; simp
+      · by_cases h1 : k = -1
+        · subst h1; simp
+        · have : ¬ (k = 0 ∨ k = -1) := by omega
+          have a1 : ¬ (0 ≤ k ∧ k < 1) := by omega
+          have a2 : ¬ (-1 ≤ k ∧ k < 0) := by omega
+          simp [this, a1, a2]
+    | cons b t => rfl
+
+/-! ### placement -/
+
+/-- the per-frame item of frame `f` does not carry the parameters -/
+def AbsentAt {α} (pl : Placed α) (f : Nat) : Prop := pl.perFrame[f]? = none ∨ pl.perFrame[f]? = some none
+
+/-- **Per-frame over shared (over image level)**: parameters given for the frame itself are the ones used. -/
+theorem find_per_frame {α} (pl : Placed α) (f : Nat) (a : α) (h : pl.perFrame[f]? = some (some a)) :
+    pl.find f = some (a, false) := by
+  simp [Placed.find, Placed.candidates, h, firstHit]
+
+/-- no per-frame parameters: the shared ones, marked as applying to all frames -/
+theorem find_shared {α} (pl : Placed α) (f : Nat) (a : α) (h : AbsentAt pl f) (hs : pl.shared = some a) :
+    pl.find f = some (a, true) := by
+  rcases h with h | h <;> simp [Placed.find, Placed.candidates, h, hs, firstHit]
+
+/-- neither per-frame nor shared: the image level -/
+theorem find_image {α} (pl : Placed α) (f : Nat) (h : AbsentAt pl f) (hs : pl.shared = none) :
+    pl.find f = pl.image.map (·, true) := by
+  rcases h with h | h <;> cases hi : pl.image <;> simp [Placed.find, Placed.candidates, h, hs, hi, firstHit]
+
+/-- a functional group is given per frame either for every frame or for none (PS3.3 C.7.6.16.1) -/
+def Uniform {α} (pl : Placed α) (n : Nat) : Prop :=
+  (∀ f, f < n → ∃ a, pl.perFrame[f]? = some (some a)) ∨ (∀ f, f < n → AbsentAt pl f)
+
+theorem find_stable {α} (pl : Placed α) (n f : Nat) (hu : Uniform pl n) (h0 : 0 < n) (hf : f < n)
+    (hsh : ∀ a, pl.find 0 ≠ some (a, false)) : pl.find f = pl.find 0 := by
+  rcases hu with hu | hu
+  · obtain ⟨a, ha⟩ := hu 0 h0
+    exact absurd (find_per_frame pl 0 a ha) (hsh a)
+  · have e : ∀ g, g < n → pl.find g = firstHit [(pl.shared, true), (pl.image, true)] := by
+      intro g hg
+      rcases hu g hg with h | h <;> simp [Placed.find, Placed.candidates, h, firstHit]
+    rw [e f hf, e 0 h0]
+
+theorem find_shared_flag {α} (pl : Placed α) (f : Nat) (a : α) (sh : Bool) (h : pl.find f = some (a, sh)) :
+    sh = false ↔ ∃ b, pl.perFrame[f]? = some (some b) := by
+  unfold Placed.find Placed.candidates at h
+  cases hp : pl.perFrame[f]? with
+  | none =>
+    rw [hp] at h
+    cases hs : pl.shared <;> cases hi : pl.image <;> simp [hs, hi, firstHit] at h <;> simp [← h.2]
+  | some o =>
+    rw [hp] at h
+    cases o with
+    | some b => simp [firstHit] at h; simp [← h.2]
+    | none =>
+      cases hs : pl.shared <;> cases hi : pl.image <;> simp [hs, hi, firstHit] at h <;> simp [← h.2]
+
+theorem opt_find_stable {α} (pl : Placed α) (use : Bool) (n f : Nat) (hu : Uniform pl n) (h0 : 0 < n) (hf : f < n)
+    (hflag : (match (if use then pl.find 0 else none) with | some (_, sh) => sh | none => true) = true) :
+    (if use then pl.find f else none) = (if use then pl.find 0 else none) := by
+  cases use with
+  | false => rfl
+  | true =>
+    simp only [↓reduceIte] at hflag ⊢
+    apply find_stable pl n f hu h0 hf
+    intro a ha
+    rw [ha] at hflag
+    simp at hflag
+
 end HdVerif.PixelPipelineLemmas
